@@ -324,6 +324,10 @@ class Model(CallsMixin, BuiltinsMixin):
             out.deg = {k: v * f for k, v in da.items()}
         elif sym in ('+', '-') and da is not None and da == db:
             out.deg = da
+        if (da is None or db is None) and sym in ('*', '/', '**', '+', '-'):
+            out.degq = True     # an operand of unknown degree
+        elif sym in ('+', '-') and da != db:
+            out.degq = True
 
     def _plain(self, v):
         return v.k in ('int', 'bool') or (v.k == 'float' and v.has_const())
@@ -353,6 +357,8 @@ class Model(CallsMixin, BuiltinsMixin):
         return None
 
     def deg_of(self, v):
+        if v.degq:
+            return None
         if v.deg is not None:
             return v.deg
         if v.k in ('int', 'bool') or (v.k == 'float' and v.has_const()):
